@@ -110,9 +110,12 @@ PROPS = {
         "exhaustive": {"quick": False, "thorough": False},
         "assumptions": COMMON_ASSUME + ["that objects use only the five AmlSink methods and have no interior mutability is a property of "
                                         "the Rust source (type system), exercised but not proved"],
-        "level_text": "PARTIAL: theorems cover the sink side for all traces (a byte-only sink, the vector sink and the checksum sink observe "
-                      "only the flattened stream; u8sum = arithmetic sum); determinism and sink independence of the crate's objects "
-                      "are checked by running every generated object into six sinks.",
+        "level_text": "PARTIAL: theorems cover the sink side for ALL call traces and every sink the crate implements (a byte-only sink, "
+                      "the vector, checksum, generic-table and package-builder sinks observe only the flattened stream; pushing a trace "
+                      "through the generic-table sink = one append_slice of the stream; u8sum = arithmetic sum; GAS raw form = serialised "
+                      "form; aml_as_bytes! structs serialise their raw form). That an object uses only the five trait methods and is not "
+                      "mutated by serialisation is Rust's type system (&self, &mut dyn AmlSink): it is exercised -- every generated object "
+                      "into six sinks, twice -- not proved.",
     },
     "C18": {
         "rule": "cases = every caller-controlled count/length site at field maximum, maximum+1 and far beyond, in both cargo profiles: "
